@@ -117,7 +117,7 @@ class shallowwater1d(base.model):
         qL = hL*uL
         qR = hR*uR
         Fh = .5*( qL + qR ) - 0.5*cmax*(hR - hL)
-        Fq = .5*( (qL*uL + 0.5*g*hL**2) + (qR*uR**2 + 0.5*g*hR**2)) - 0.5*cmax*(qR-qL)
+        Fq = .5*( (qL*uL + 0.5*g*hL**2) + (qR*uR + 0.5*g*hR**2)) - 0.5*cmax*(qR-qL)
 
         return [Fh, Fq]
 
